@@ -136,10 +136,16 @@ func c03Run(c *fw.Ctx) {
 			chosen[i] = x.Choose("hdr:"+identityHeaders[i], len(variants))
 		}
 		sess := sess
-		if x.Choose("session-groups", 2) == 1 {
+		switch x.Choose("session-groups", 3) {
+		case 1:
 			// a session without groups (the normal state for upstreams without a group rule)
 			cp := *sess
 			cp.Groups = nil
+			sess = &cp
+		case 2:
+			// names outside ASCII: the upstream is told exactly what the session says, byte for byte
+			cp := *sess
+			cp.Groups, cp.User, cp.Email = []string{"eng", "\u00c9quipe-Plateforme", "\u5e73\u53f0\u7ec4"}, "j\u00f6rg.m\u00fcller", "j\u00f6rg.m\u00fcller@ex\u00e4mple.test"
 			sess = &cp
 		}
 		host := hostA
@@ -435,7 +441,7 @@ func init() {
 		Level: "exploration",
 		Rule: "full product, as raw HTTP/1.1 bytes to a real net/http server in front of the real proxy chain, recorded at a backend behind the real reverse proxy: " +
 			"for each of the four identity headers a client variant {absent, canonical, lower-case sent twice (thorough: mixed case, empty value)} x 16 Cookie header layouts (the session cookie next to a malformed piece: unbalanced quote, bare token, trailing semicolon, backslash value; session cookie name followed by a space / a tab before '=', session cookie only/first/middle/last, two session cookies, prefix and suffix look-alike names, quoted values, separate Cookie lines, no space, '=' in values) " +
-			"x handling {authenticated, skip-auth path, CORS preflight (OPTIONS) on an upstream that lets preflights through, authenticated on an upstream with skip_request_signing, /favicon.ico matched by a skip-auth pattern} x session groups {two, none} x Connection header {plain, nominating identity headers} x inject_request_headers {none, unrelated, colliding with an identity header}; " +
+			"x handling {authenticated, skip-auth path, CORS preflight (OPTIONS) on an upstream that lets preflights through, authenticated on an upstream with skip_request_signing, /favicon.ico matched by a skip-auth pattern} x session {two groups, none, user / email / group names outside ASCII} x Connection header {plain, nominating identity headers} x inject_request_headers {none, unrelated, colliding with an identity header}; " +
 			"oracle at the backend: authenticated => the three identity headers exactly once with the session's values and no access-token header (option off); skip-auth and preflight => all four absent; the session cookie never arrives; every other cookie arrives with the same name and value; " +
 			"second scenario after-provider-round-trip: session due for {revalidation, refresh} x cookie groups {4} x groups the authenticator now reports {3} x client identity headers {none, forged groups, forged all} x session size {ordinary, JWT-sized tokens: sealed value beyond 4096 bytes}: the three identity headers at the backend equal the session the proxy stored in the cookie it re-issued on that very request, and a follow-up request carrying every cookie that response set is forwarded without any of them; " +
 			"distinct_nontrivial = distinct (handling, layout, inject, connection, client header variants) cases that were forwarded",
